@@ -189,6 +189,9 @@ impl Engine for VmEngine {
             // error inside a nested card: trace must name the failing card (F14)
             run("setglobal($67,callnative($6661696c,[]))", ""),
             run("setglobal($67,callnative($6e6f7065,[int(#1)]))", ""),
+            // a local declared in a While body that never runs (repaired: the body is a scope)
+            run("while(int(#0),composite($5f,[setvar($78,int(#1))])),setvar($79,int(#2)),setglobal($6f,readvar($79))", ""),
+            run("setvar($63,int(#0)),while(less(readvar($63),int(#2)),composite($5f,[setvar($78,readvar($63)),setvar($63,add(readvar($63),int(#1)))])),setvar($79,int(#2)),setglobal($6f,readvar($79))", ""),
             // known finding K2: == on a table that contains itself recurses without bound
             run("setvar($74,table),setprop(readvar($74),readvar($74),int(#0)),setglobal($67,eq(readvar($74),readvar($74)))", ""),
             // nested budget (F9): a sort whose key function loops; the whole run has one budget
